@@ -6,7 +6,7 @@
    inside a transaction. *)
 From Coq Require Import ZArith List Bool.
 From Model Require Import PyBase Cache.
-From Proofs Require Import CacheProofs CacheWf CacheCopy CacheCoh CacheWorld CacheUnion CacheTheorems CacheUsable CacheExamples CacheTxn CacheFresh CacheFreshOps CacheFreshWorld CacheFreshUnion CacheFreshSplit CacheInj CacheInjOps CacheInjWorld CacheFreshPatch CacheFreshFull CacheStereo CacheTie CacheUsable2 CacheCopyTotal CacheUsable3 CacheUsable4 CacheOpsTie CacheOpsTie2 CacheOpsTie3 CacheOpsTie4 CacheOpsTie5 CacheTotal CacheTotal2 CacheTotal3 CacheFuel CacheFreshSplit.
+From Proofs Require Import CacheProofs CacheWf CacheCopy CacheCoh CacheWorld CacheUnion CacheTheorems CacheUsable CacheExamples CacheTxn CacheFresh CacheFreshOps CacheFreshWorld CacheFreshUnion CacheFreshSplit CacheInj CacheInjOps CacheInjWorld CacheFreshPatch CacheFreshFull CacheStereo CacheTie CacheUsable2 CacheCopyTotal CacheUsable3 CacheUsable4 CacheOpsTie CacheOpsTie2 CacheOpsTie3 CacheOpsTie4 CacheOpsTie5 CacheOpsTie6 CacheTotal CacheTotal2 CacheTotal3 CacheFuel CacheFreshSplit.
 From Gen Require Import CacheOps.
 Import ListNotations.
 Open Scope Z_scope.
@@ -530,3 +530,16 @@ Theorem C13_mutators_exact_example :
    o_changed (s_cur (fst (step (fst (step s OEnter)) (OAddAtom (mkCore 7 None 0 false) None)))) = Some [3]).
 Proof. split; [exact mutators_exact_example | exact add_atom_exact_example]. Qed.
 Print Assumptions C13_mutators_exact_example.
+
+(* MoleculeContainer.copy: the _changed, _backup, _name, _meta of the copy, translated from the source, are those of the hand-written
+   copy_mol; a copy made at any moment - also while its source is inside `with mol:` - is born outside any transaction *)
+Theorem C13_translated_copy_fields : forall ks kc h o h1 b, copy_mol ks kc h o = Ok (h1, b) ->
+  (o_changed b, o_backup b, o_name b, o_meta b) = gen_copy_fields o.
+Proof. exact gen_copy_fields_eq. Qed.
+Print Assumptions C13_translated_copy_fields.
+
+Theorem C13_copy_born_outside_transaction : forall s, snd (step s OCopy) = None ->
+  exists c, s_others (fst (step s OCopy)) = c :: s_others s /\ o_backup c = None /\
+            (o_changed c, o_backup c, o_name c, o_meta c) = gen_copy_fields (s_cur s).
+Proof. exact copy_born_outside_transaction. Qed.
+Print Assumptions C13_copy_born_outside_transaction.
